@@ -57,6 +57,36 @@ def r_grporder(A, ctx, scope, rule="R-GRPORDER"):
                             "group g no longer owns the features listed in groups[g] (weights "
                             "and group membership are attached to other features)",
                        loc=loc(f, c))
+    # in-place reordering through an alias: `c = np.asarray(grp_indices); c.sort()` sorts grp_indices itself
+    # (np.asarray / asanyarray / ravel / reshape / view / a plain name do not copy)
+    alias = set(deps)
+    changed = True
+    while changed:
+        changed = False
+        for st in assigns:
+            if len(st.targets) == 1 and isinstance(st.targets[0], ast.Name) and st.targets[0].id not in alias:
+                v = st.value
+                src = None
+                if isinstance(v, ast.Name):
+                    src = v.id
+                elif isinstance(v, ast.Call) and ast.unparse(v.func) in ("np.asarray", "np.asanyarray", "np.ascontiguousarray") \
+                        and v.args and isinstance(v.args[0], ast.Name):
+                    src = v.args[0].id
+                elif isinstance(v, ast.Call) and isinstance(v.func, ast.Attribute) and v.func.attr in ("ravel", "reshape", "view") \
+                        and isinstance(v.func.value, ast.Name):
+                    src = v.func.value.id
+                if src in alias:
+                    alias.add(st.targets[0].id)
+                    changed = True
+    for c in ast.walk(f.node):
+        if isinstance(c, ast.Call) and isinstance(c.func, ast.Attribute) and c.func.attr in ("sort", "partition", "shuffle"):
+            tgt = c.func.value.id if isinstance(c.func.value, ast.Name) else (
+                c.args[0].id if c.args and isinstance(c.args[0], ast.Name) and ast.unparse(c.func).startswith("np.random") else None)
+            if tgt in alias:
+                n += 1
+                ctx.ob(rule, f"{f.fq}::{norm_src(c)[:60]}", False,
+                       what=f"`{norm_src(c)[:60]}` reorders in place an array that is (an alias of) the group indices being "
+                            "returned: group g no longer owns the features listed in groups[g]", loc=loc(f, c))
     ctx.floor(rule, n, scope.get("floor", 6))
 
 
@@ -728,3 +758,115 @@ def r_grppair(A, ctx, scope, rule="R-GRPPAIR"):
                                         f"receive `{want}`, the array grp_converter returned for that role",
                                    loc=loc(f, c))
     ctx.floor(rule, n, scope.get("floor", 5))
+
+
+def r_lazyset(A, ctx, scope, rule="R-LAZYSET"):
+    """C06 / C18: lazy attributes of datafits are (re)assigned by every initialisation that can use them"""
+    ctx.rule(rule, "lazy attributes are assigned on every path of the initialisation that assigns them at all: "
+             "for each `self.a = ...` in initialize / initialize_sparse, no path from the innermost "
+             "hyper-parameter guard around it (`if self.use_efron:`), or from the entry when there is none, "
+             "reaches a return without passing through an assignment of `self.a` - an early return leaves the "
+             "attribute of the previous initialisation (other data) in place, and the accessors read it")
+    n = 0
+    for cls in A.prog.datafits + A.prog.penalties:
+        init = cls.find_method("__init__")
+        knobs = set(A.prog.init_params(cls)) if init is not None else set()
+        for mname in ("initialize", "initialize_sparse"):
+            m = cls.methods.get(mname)
+            if m is None:
+                continue
+            cfg = cfg_of(m)
+            assigns = {}
+            for nd in cfg.stmts():
+                a = nd.ast
+                if isinstance(a, ast.Assign):
+                    for t in a.targets:
+                        for e in (t.elts if isinstance(t, ast.Tuple) else [t]):
+                            if isinstance(e, ast.Attribute) and isinstance(e.value, ast.Name) and e.value.id == "self":
+                                assigns.setdefault(e.attr, []).append(nd.id)
+            for attr, nodes in sorted(assigns.items()):
+                n += 1
+                # innermost knob guard dominating every assignment of the attribute
+                starts = None
+                for nid in nodes:
+                    gs = [(t, lab, tid) for t, lab, tid in cfg.facts_at(nid)
+                          if isinstance(t, ast.expr) and any(
+                              isinstance(x, ast.Attribute) and isinstance(x.value, ast.Name) and x.value.id == "self"
+                              and x.attr in knobs for x in ast.walk(t))]
+                    key = tuple((ast.unparse(t), lab) for t, lab, _ in gs)
+                    starts = key if starts is None or starts == key else ()
+                # start nodes: the edge nodes of the innermost guard (same label), else the entry
+                start_nodes = [cfg.entry]
+                if starts:
+                    txt, lab = starts[-1]
+                    cand = [x.id for x in cfg.nodes if x.kind == "edge" and x.label == lab and x.ast is not None
+                            and isinstance(x.ast, ast.expr) and ast.unparse(x.ast) == txt]
+                    if cand:
+                        start_nodes = cand
+                blocked = set(nodes)
+                seen, todo, leak = set(), list(start_nodes), None
+                while todo:
+                    x = todo.pop()
+                    if x in seen or x in blocked:
+                        continue
+                    seen.add(x)
+                    if x == cfg.exit:
+                        leak = x
+                        break
+                    if x in cfg.raises:
+                        continue
+                    todo += cfg.succ[x]
+                how = ""
+                if leak is not None:
+                    rets = [r for r in cfg.returns if r in seen]
+                    how = (f"`return` at line {cfg.nodes[rets[0]].ast.lineno}" if rets else "the end of the method")
+                ctx.ob(rule, f"{m.fq}::self.{attr}", leak is None,
+                       what=f"{m.qualname} assigns `self.{attr}` but a path "
+                            f"{'under `' + starts[-1][0] + '` ' if starts else ''}reaches {how} without assigning it: "
+                            "when the same (compiled) object is initialised again on other data the attribute still "
+                            "describes the previous data, and value / gradient accessors read it",
+                       loc=loc(m, cfg.nodes[nodes[0]].ast))
+    ctx.floor(rule, n, scope.get("floor", 10))
+
+
+def r_accessor_pure(A, ctx, scope, rule="R-ACCESSOR-PURE"):
+    """C06 / C18: accessors of datafits and penalties leave the object unchanged"""
+    ctx.rule(rule, "accessors do not write the object: outside __init__ / initialize / initialize_sparse no method "
+             "of a datafit or penalty stores into `self.<attr>` - neither by assignment, nor elementwise, nor "
+             "through a local alias (`buf = self.a; buf[i] = ...`).  A result written into a buffer attribute "
+             "and returned is overwritten by the next call (two gradients held at once are the same array), "
+             "and the value depends on the call history")
+    n = 0
+    for cls in A.prog.datafits + A.prog.penalties:
+        for m in cls.methods.values():
+            if m.name in ("__init__", "initialize", "initialize_sparse", "get_spec", "params_to_dict"):
+                continue
+            n += 1
+            alias = set()
+            for st in ast.walk(m.node):
+                if isinstance(st, ast.Assign) and len(st.targets) == 1 and isinstance(st.targets[0], ast.Name) \
+                        and isinstance(st.value, ast.Attribute) and isinstance(st.value.value, ast.Name) \
+                        and st.value.value.id == "self":
+                    alias.add(st.targets[0].id)
+            bad = None
+            for st in ast.walk(m.node):
+                tgs = st.targets if isinstance(st, ast.Assign) else [st.target] if isinstance(st, ast.AugAssign) else []
+                for t in tgs:
+                    for e in (t.elts if isinstance(t, ast.Tuple) else [t]):
+                        sub = False
+                        while isinstance(e, ast.Subscript):
+                            e, sub = e.value, True
+                        if isinstance(e, ast.Attribute) and isinstance(e.value, ast.Name) and e.value.id == "self":
+                            bad = st
+                        if sub and isinstance(e, ast.Name) and e.id in alias:
+                            bad = st
+                if isinstance(st, ast.Call) and isinstance(st.func, ast.Attribute) and st.func.attr in ("fill", "sort", "resize") \
+                        and isinstance(st.func.value, ast.Attribute) and isinstance(st.func.value.value, ast.Name) \
+                        and st.func.value.value.id == "self":
+                    bad = st
+            ctx.ob(rule, f"{m.fq}", bad is None,
+                   what=(f"{m.qualname}: `{norm_src(bad)[:70]}` writes into the object's own state inside an accessor: "
+                         "the array handed out by one call is overwritten by the next (results held across calls "
+                         "alias each other) and accessor values depend on earlier calls") if bad is not None else "",
+                   loc=loc(m, bad) if bad is not None else None)
+    ctx.floor(rule, n, scope.get("floor", 200))
